@@ -66,6 +66,7 @@ func (p *FinalLimitPlan) Batch(ctx *ExecuteCtx) ([][]Column, error) {
 		}
 		if nrows <= restSkips {
 			p.skips += nrows
+			rows = nil
 		} else {
 			p.skips += restSkips
 			rows = rows[restSkips:]
@@ -204,6 +205,7 @@ func (p *LimitPlan) Batch(ctx *ExecuteCtx) ([]KVPair, error) {
 		}
 		if nrows <= restSkips {
 			p.skips += nrows
+			rows = nil
 		} else {
 			p.skips += restSkips
 			rows = rows[restSkips:]
